@@ -76,8 +76,10 @@ def draw_count(draw, width, maxfit, profile):
     if profile == "max":
         return hi
     k = draw(st.integers(0, 9))
-    if k <= 5:
+    if k <= 4:
         return draw(st.integers(0, min(3, hi)))
+    if k == 5:
+        return min(hi, draw(st.integers(4, 8)))  # every small count, not only 0..3 (alignment depends on the count)
     if k == 6:
         return hi
     if k == 7:
